@@ -442,9 +442,7 @@ class Oracle:
             # LINES data stands for its lines plus a line ending: when the selection ends on an empty last
             # line the implementation stores the lines without that empty one (same lines once pasted)
             texts = [text] + ([text[:-1]] if ty == 1 and text.endswith("\n") and le == len(t0) else [])
-            # a one-cell block (cursor still on the origin) is the residual of C09-F3, see design.d/C09.md (C09-F5)
-            single = (ty == 2 and key != 2 and m == c0)
-            fam = "vi-block-operator-single-cell" if single else "vi-register"
+            fam = "vi-register"
             okay = False
             for tx in texts:
                 entry = [S(tx), ty]
@@ -475,7 +473,7 @@ class Oracle:
             want += t0[last:]
             if t1 != want:
                 return (name + ": text' is not text without the selected span(s)",
-                        "vi-block-operator-single-cell" if single else "vi-cut")
+                        "vi-cut")
             return None
         return None
 
